@@ -1904,7 +1904,7 @@ func ruleNoPhantomField(p *Prog, r *Out) {
 			if decIdx < 0 {
 				continue
 			}
-			if ifs, ok := s.(*ast.IfStmt); ok && guardIdx < 0 && strings.Contains(p.text(ifs.Cond), "hf.Empty()") && len(ifs.Body.List) >= 1 {
+			if ifs, ok := s.(*ast.IfStmt); ok && guardIdx < 0 && (strings.Contains(p.text(ifs.Cond), "hf.Empty()") || strings.HasSuffix(squash(p.text(ifs.Cond)), ".fieldDecoded")) && len(ifs.Body.List) >= 1 {
 				if b, ok := ifs.Body.List[len(ifs.Body.List)-1].(*ast.BranchStmt); ok && (b.Tok == token.BREAK || b.Tok == token.CONTINUE) {
 					guardIdx, guard = i, ifs
 					continue
@@ -1932,8 +1932,7 @@ func ruleNoPhantomField(p *Prog, r *Out) {
 			r.bad(key, p.pos(loop.Pos()), fn+" uses the field object after every successful decoder call: a HEADERS or CONTINUATION fragment that ends in a dynamic table size update leaves the object empty, and that empty field is validated and delivered as a regular field (the pseudo-headers in the next fragment are then refused as 'after a regular field')")
 			continue
 		}
-		c := fdeCheck{p, r, p.pos(fd.Pos())}
-		c.expr(key, guard.Cond, fdeDomain{[]string{"len(b)", "hf.Empty()"}, [][]int64{seq(0, 2), {0, 1}}}, nil, func(e fdeEnv) int64 { return b2i(e["len(b)"] == 0 && e["hf.Empty()"] != 0) }, "len(b) == 0 && hf.Empty()", "only a call that used up the fragment can have ended in a size update; skipping on an empty field alone drops real fields, skipping on exhausted input alone drops the last field of every fragment")
+		r.check(isNoFieldTest(p, guard.Cond), key, p.pos(fd.Pos()), "if !dec.fieldDecoded { break }", fn+" no longer takes the decoder's word for whether its last step produced a field: judged by the look of the field object, a field with neither name nor value that ends a frame is taken for none, dropped and not counted")
 	}
 }
 
